@@ -42,6 +42,12 @@ def cntResults (n : Nat) (rows : List Row) : List (List Val × List Int) :=
   let ems := Counting.run n [] (rows.map fun r => Counting.Op.row (encCounting r.1) r)
   ems.flatMap fun e => aggResults e.2
 
+/-- model of a session window that never expires + `Trigger()`: one batch per encoded session key,
+each batch through the aggregator -/
+def sesResults (rows : List Row) : List (List Val × List Int) :=
+  let sessions := GroupAgg.groups encSession (rows.map fun r => (r.1, r))
+  sessions.flatMap fun e => aggResults e.2.2
+
 /-- model of GLOBAL WINDOW TRIGGER WHEN count(*) >= N: running state per encoded key, purged on fire;
 the reported key values are those of the row that fired -/
 def glbResults (n : Nat) (rows : List Row) : List (List Val × List Int) :=
@@ -87,6 +93,7 @@ def run (c : Case) : CaseOut := Id.run do
     | ["results"] =>
       let res := match mode with
         | "agg" => aggResults rows
+        | "ses" => sesResults rows
         | "cnt" => cntResults n rows
         | _ => glbResults n rows
       obs := obs ++ [sortLines (res.map resultLine)]
@@ -94,7 +101,7 @@ def run (c : Case) : CaseOut := Id.run do
       match implObs.mapM parseResult with
       | none => spec := "fail:unreadable-result"
       | some ires =>
-        if mode == "agg" then
+        if mode == "agg" || mode == "ses" then
           if !(ires.all fun r => r.2.1 == r.2.2.length) then spec := "fail:count-differs-from-members"
           else if !(GroupBy.partitionHolds (normRows rows) (ires.map fun r => (r.1, r.2.2))) then
             spec := "fail:not-the-partition-by-tuple"
